@@ -15,6 +15,7 @@ PARTIALS = {
     "q": "{% for j in xs limit: 2 %}{{ j }}{{ forloop.parentloop.index }}{% endfor %}",
     "base": "A{% block bl %}base{{ x }}{% endblock %}B{% block other %}o{% endblock %}",
     "mid": "{% extends 'base' %}{% block bl %}mid{{ block.super }}{% endblock %}",
+    "brk": "{{ v }}{% if v == 2 %}{% break %}{% endif %}{% if v == 1 %}{% continue %}{% endif %}.",
 }
 
 # one enclosing construct; exactly one %s each
@@ -88,9 +89,10 @@ LEAF = [
     "{% raw %}{% endraw -%}  {{ x }}{% raw %}{{ y }}{% endraw %}{%- comment %}c{% endcomment -%} z",
     "{% case x %}{% when 1, x, x %}several{% when x %}again{% else %}no{% endcase %}{% case s %}{% when 'abc', s %}S{% endcase %}",
     "{{ a[s] }}{{ xs[y] }}{{ hs[y].k }}{{ a[x][y] }}{% assign key = 'k' %}{{ a[key] }}{% for e in hs %}{{ e[key] }}{% endfor %}",
+    "{% for e in xs %}{% render 'brk', v: e %}|{% include 'brk', v: e %}{% endfor %}{% render 'brk', v: 2 %}",
     "{% doc -%} usage: {% if %} {% form %} {% enddoc %}{%- doc %}{% else %}{% enddoc -%}{{ x }}{% comment -%}{% endif %}{%- endcomment %}",
 ]
-assert len(WRAP) == 16 and len(LEAF) == 41 and len(WRAP2) == 5   # the bounds in mk_condition's contract
+assert len(WRAP) == 16 and len(LEAF) == 42 and len(WRAP2) == 5   # the bounds in mk_condition's contract
 
 # data sets: nothing defined / ordinary / odd types
 DATA = [
@@ -162,7 +164,7 @@ def mk_condition(name, check, skip=None):
 
     def f(w1: int, leaf: int) -> bool:
         """
-        pre: 0 <= w1 <= 15 and 0 <= leaf <= 40
+        pre: 0 <= w1 <= 15 and 0 <= leaf <= 41
         post: _
         """
         if excluded(name, locals()):
@@ -184,7 +186,7 @@ def outcome(thunk):
         return ("other", type(e).__name__)
 
 
-BOUNDS = "corpus of %d templates = 5 outer constructs x 16 constructs x 41 leaves (harness/corpus.py), 4 fixed data sets" % SIZE
+BOUNDS = "corpus of %d templates = 5 outer constructs x 16 constructs x 42 leaves (harness/corpus.py), 4 fixed data sets" % SIZE
 
 __all__ = ["PARTIALS", "WRAP", "WRAP2", "LEAF", "DATA", "data", "source", "make_env", "template", "Mode",
            "NW2", "NW1", "NLEAF", "NDATA", "SIZE"]
